@@ -3,6 +3,7 @@ package c08
 import (
 	"bytes"
 	"context"
+	"encoding/base64"
 	"encoding/json"
 	"fmt"
 	"os"
@@ -38,11 +39,31 @@ type fileSpec struct {
 }
 
 type step struct {
-	Op     string    `json:"op"` // add update delete reload restore pending-reload restart
+	Op     string    `json:"op"` // add update delete reload restore pending-reload refused-reload restart
 	Name   string    `json:"name,omitempty"`
 	Key    int       `json:"key"`            // universe index; <0: wrong-length key (-1: one short, -2: one long, -3: other cipher's length, -4: empty)
 	File   *fileSpec `json:"file,omitempty"` // reload: edit the file to this first
 	Settle bool      `json:"settle"`         // let the 5 s save debounce elapse after the step and compare the file too
+	Bad    *badSpec  `json:"bad,omitempty"`  // refused-reload: the semantically bad file
+}
+
+// badSpec: a file that is valid JSON but has one entry the server must refuse.
+type badSpec struct {
+	Kind    string `json:"kind"`  // bad-length dup-key bad-base64
+	NGood   int    `json:"ngood"` // good entries in the file (1..3)
+	Pos     string `json:"pos"`   // first middle last: where the bad entry stands
+	Rot     int    `json:"rot"`   // which keys the good entries get
+	Compact bool   `json:"compact,omitempty"`
+}
+
+func (b *badSpec) bytes(kl int) (content []byte, goodBefore int) {
+	order := []string{"dave", "carol", "bob", "alice"}
+	var good []credx.Entry
+	for i := 0; i < b.NGood; i++ {
+		good = append(good, credx.Entry{Name: order[i], Value: base64.StdEncoding.EncodeToString(credx.Key(kl, (i+b.Rot)%nKeys))})
+	}
+	pos := map[string]int{"first": 0, "middle": (b.NGood + 1) / 2, "last": b.NGood}[b.Pos]
+	return credx.SemanticallyBadStore(kl, good, order[b.NGood], b.Kind, pos, !b.Compact), pos
 }
 
 type plan struct {
@@ -104,8 +125,10 @@ func drawPlan(rt *rapid.T, maxSteps int) plan {
 			s.Op = "reload"
 		case k < 87:
 			s.Op = "restore" // put an earlier *loaded* document back byte for byte, then reload
-		case k < 94:
+		case k < 92:
 			s.Op = "pending-reload" // a change, then at once a reload of the file nobody touched
+		case k < 96:
+			s.Op = "refused-reload" // a file with one semantically bad entry, reload (refused), a change, the save
 		default:
 			s.Op = "restart"
 		}
@@ -113,6 +136,16 @@ func drawPlan(rt *rapid.T, maxSteps int) plan {
 		case "pending-reload":
 			s.Name = rapid.SampledFrom(names).Draw(rt, "name")
 			s.Key = rapid.IntRange(0, nKeys-1).Draw(rt, "key")
+		case "refused-reload":
+			s.Name = rapid.SampledFrom(names).Draw(rt, "name")
+			s.Key = rapid.IntRange(0, nKeys-1).Draw(rt, "key")
+			s.Bad = &badSpec{
+				Kind:    rapid.SampledFrom([]string{"bad-length", "dup-key", "bad-base64"}).Draw(rt, "badkind"),
+				NGood:   rapid.IntRange(1, 3).Draw(rt, "ngood"),
+				Pos:     rapid.SampledFrom([]string{"first", "middle", "last"}).Draw(rt, "badpos"),
+				Rot:     rapid.IntRange(0, nKeys-1).Draw(rt, "rot"),
+				Compact: rapid.Bool().Draw(rt, "compact"),
+			}
 		case "add", "update", "delete":
 			s.Name = rapid.SampledFrom(names).Draw(rt, "name")
 			if s.Op == "add" && rapid.IntRange(0, 19).Draw(rt, "emptyname") == 0 {
@@ -192,6 +225,7 @@ type executor struct {
 	pending    bool              // an acknowledged change has not been through a settle yet
 	harnessDoc []byte            // non-nil: the harness wrote these bytes and no save has happened since
 	syncBytes  []byte            // file bytes at the last successful load or completed save
+	source     map[string]string // where each user's current entry came from: file-loaded (start-up), reloaded, api-added, api-updated
 	loaded     [][]byte          // every document the server has loaded successfully so far (start-up and reloads)
 	savedSince bool              // the server has rewritten the file since its last successful load
 	out        *outcome
@@ -270,6 +304,9 @@ func (x *executor) views(withFile bool) string {
 				pr = x.rig.ProbeUDP(key)
 			}
 			switch {
+			case listed && pr.OK && pr.User == want && !pr.ReplyOK:
+				return x.failf("reply-round-trip-failed", "%s client with k%d (user %s, entry %s, on a %s server) was accepted but the server's reply did not make the round trip: %s",
+					tr, i, want, x.source[want], serverClass(x.p.Mode), pr.ReplyErr)
 			case listed && !pr.OK:
 				return x.failf("listed-key-refused", "%s client with k%d (user %s in the current set) was refused: %s", tr, i, want, pr.Err)
 			case listed && pr.User != want:
@@ -278,6 +315,13 @@ func (x *executor) views(withFile bool) string {
 				return x.failf("accepted-key-not-in-set", "%s client with k%d (not in the current set) was accepted as %q", tr, i, pr.User)
 			case !listed && !pr.NotFound:
 				return x.failf("refusal-reason", "%s client with k%d refused for an unexpected reason: %s", tr, i, pr.Err)
+			}
+			if listed && pr.ReplyOK {
+				l := serverClass(x.p.Mode) + "-server/" + x.source[want] + "-user/"
+				if x.p.Mode == credx.Both {
+					l += tr + "-"
+				}
+				x.lab(l + "reply-round-trip")
 			}
 		}
 	}
@@ -312,6 +356,11 @@ func (x *executor) views(withFile bool) string {
 	return ""
 }
 
+// serverClass names the transport class of the managed server.
+func serverClass(m credx.Mode) string {
+	return map[credx.Mode]string{credx.TCPOnly: "tcp-only", credx.UDPOnly: "udp-only", credx.Both: "tcp+udp"}[m]
+}
+
 func accepted(code int) bool { return code >= 200 && code < 300 }
 func rejected(code int) bool { return code >= 400 && code < 500 }
 
@@ -330,6 +379,10 @@ func (x *executor) run() {
 		return
 	}
 	x.model = init
+	x.source = map[string]string{}
+	for n := range init {
+		x.source[n] = "file-loaded"
+	}
 	x.syncBytes = doc
 	x.loaded = append(x.loaded, doc)
 	x.harnessDoc = doc
@@ -400,6 +453,7 @@ func (x *executor) run() {
 					x.out.nontriv = true
 				}
 				x.model[s.Name] = key
+				x.source[s.Name] = map[string]string{"add": "api-added", "update": "api-updated"}[s.Op]
 				x.pending = true
 			case !wantOK && rejected(code):
 				class = s.Op + "-rej-" + why
@@ -446,31 +500,50 @@ func (x *executor) run() {
 				x.out.violation = x.failf("status-mismatch/delete", "%s answered %d %q (user exists in model: %v)", desc, code, body, exists)
 				return
 			}
-		case "pending-reload":
-			// an acknowledged change that is still cooling down, then a reload of the file nobody touched
-			key := keyOf(kl, s.Key)
-			var code int
-			if _, exists := x.model[s.Name]; exists {
-				code, _ = x.rig.Delete(s.Name)
-				x.history = append(x.history, fmt.Sprintf("delete(%s)->%d", s.Name, code))
-				delete(x.model, s.Name)
-			} else {
-				if _, held := x.owner(key); held || len(key) != kl {
-					for k := 0; k < nKeys; k++ {
-						if _, h := x.owner(credx.Key(kl, k)); !h {
-							key = credx.Key(kl, k)
-						}
-					}
-				}
-				code, _ = x.rig.Add(s.Name, key)
-				x.history = append(x.history, fmt.Sprintf("add(%s,%s)->%d", s.Name, credx.KeyName(key, kl), code))
-				x.model[s.Name] = key
-			}
-			if !accepted(code) {
-				x.out.violation = x.failf("status-mismatch/pending-change", "a valid change was answered %d", code)
+		case "refused-reload":
+			content, goodBefore := s.Bad.bytes(kl)
+			if _, _, derr := credx.DecodeStore(content, kl); derr == nil {
+				x.out.violation = "HARNESS the bad file decodes: " + string(content)
 				return
 			}
-			x.pending = true
+			if err := credx.WriteStore(x.path, content); err != nil {
+				x.out.violation = "HARNESS write: " + err.Error()
+				return
+			}
+			x.harnessDoc = content
+			code, _ := x.rig.Reload()
+			x.history = append(x.history, fmt.Sprintf("reload(%q: %s entry %s, %d good entries before it)->%d", content, s.Bad.Kind, s.Bad.Pos, goodBefore, code))
+			if code < 400 {
+				x.out.violation = x.failf("invalid-file-accepted", "a store whose %s entry is %s was answered %d", s.Bad.Pos, s.Bad.Kind, code)
+				return
+			}
+			// the refused reload must have left everything exactly as it was
+			if v := x.views(false); v != "" {
+				x.out.violation = strings.Replace(v, "SIG=C08/", "SIG=C08/refused-reload-changed-state/", 1)
+				return
+			}
+			// now a change: its debounced save must write (previous set +- the change)
+			if !x.toggle(s) {
+				return
+			}
+			x.settle()
+			if v := x.views(true); v != "" {
+				x.out.violation = strings.Replace(v, "SIG=C08/", "SIG=C08/after-refused-reload/", 1)
+				return
+			}
+			class = "refused-reload-" + s.Bad.Kind + "-then-change-saved"
+			x.lab("refused-reload-then-change-then-save")
+			x.lab("refused/" + s.Bad.Kind)
+			x.lab("refused-pos/" + s.Bad.Pos)
+			if goodBefore >= 1 {
+				x.lab("refused/" + s.Bad.Kind + "/after-good-entries")
+			}
+			x.out.nontriv = true
+		case "pending-reload":
+			// an acknowledged change that is still cooling down, then a reload of the file nobody touched
+			if !x.toggle(s) {
+				return
+			}
 			var stop bool
 			if class, stop = x.doReload(step{Op: "reload"}); stop {
 				return
@@ -501,6 +574,9 @@ func (x *executor) run() {
 				return
 			}
 			class = "restart"
+			for n := range x.model {
+				x.source[n] = "file-loaded"
+			}
 			x.savedSince = false // a fresh instance's content cache is what it has just loaded
 			x.lab("restart")
 		}
@@ -515,6 +591,37 @@ func (x *executor) run() {
 			return
 		}
 	}
+}
+
+// toggle acknowledges one valid change on s.Name: delete it if it exists, else add it with
+// s.Key (or the first free universe key). false: a violation was recorded.
+func (x *executor) toggle(s step) bool {
+	kl := x.p.KeyLen
+	key := keyOf(kl, s.Key)
+	var code int
+	if _, exists := x.model[s.Name]; exists {
+		code, _ = x.rig.Delete(s.Name)
+		x.history = append(x.history, fmt.Sprintf("delete(%s)->%d", s.Name, code))
+		delete(x.model, s.Name)
+	} else {
+		if _, held := x.owner(key); held || len(key) != kl {
+			for k := 0; k < nKeys; k++ {
+				if _, h := x.owner(credx.Key(kl, k)); !h {
+					key = credx.Key(kl, k)
+				}
+			}
+		}
+		code, _ = x.rig.Add(s.Name, key)
+		x.history = append(x.history, fmt.Sprintf("add(%s,%s)->%d", s.Name, credx.KeyName(key, kl), code))
+		x.model[s.Name] = key
+		x.source[s.Name] = "api-added"
+	}
+	if !accepted(code) {
+		x.out.violation = x.failf("status-mismatch/pending-change", "a valid change was answered %d", code)
+		return false
+	}
+	x.pending = true
+	return true
 }
 
 // doReload executes a reload / restore step. stop: a violation was recorded.
@@ -600,6 +707,9 @@ func (x *executor) doReload(s step) (class string, stop bool) {
 			class = "reload-ok-changed"
 		}
 		x.model = want
+		for n := range want {
+			x.source[n] = "reloaded"
+		}
 		x.syncBytes = content
 		x.loaded = append(x.loaded, content)
 		x.savedSince = false
@@ -704,7 +814,15 @@ var recSeq = ev.New("C08", "sequential-plans",
 		"universe key (+1 never-issued key) per transport, GET users, and (after the 5 s debounce on a fake clock) the decoded store "+
 		"file are compared with a name->key model. Non-trivial: an accepted delete or key rotation followed by a handshake with the old key, "+
 		"a duplicate-key attempt, or a reload that changes the set. Distinct key = key size + stores + op/outcome trace").
-	Require("deleted-key-probed", "rotated-key-probed", "dupkey-attempt", "reload-edited", "restore-loaded-content-after-save", "reload-of-unmodified-file-with-change-pending-after-an-earlier-save", "reload-invalid-rejected", "restart",
+	Require(
+		"udp-only-server/file-loaded-user/reply-round-trip", "udp-only-server/reloaded-user/reply-round-trip",
+		"udp-only-server/api-added-user/reply-round-trip", "udp-only-server/api-updated-user/reply-round-trip",
+		"tcp-only-server/file-loaded-user/reply-round-trip", "tcp-only-server/reloaded-user/reply-round-trip",
+		"tcp-only-server/api-added-user/reply-round-trip", "tcp-only-server/api-updated-user/reply-round-trip",
+		"tcp+udp-server/api-added-user/udp-reply-round-trip", "tcp+udp-server/api-updated-user/udp-reply-round-trip",
+		"tcp+udp-server/reloaded-user/udp-reply-round-trip", "tcp+udp-server/file-loaded-user/udp-reply-round-trip",
+		"deleted-key-probed", "rotated-key-probed", "dupkey-attempt", "reload-edited", "restore-loaded-content-after-save", "refused-reload-then-change-then-save", "refused/bad-length", "refused/dup-key", "refused/bad-base64",
+		"refused/bad-length/after-good-entries", "refused/dup-key/after-good-entries", "refused/bad-base64/after-good-entries", "refused-pos/first", "refused-pos/middle", "refused-pos/last", "reload-of-unmodified-file-with-change-pending-after-an-earlier-save", "reload-invalid-rejected", "restart",
 		"mode/tcp", "mode/udp", "mode/both", "keylen/16", "keylen/32")
 
 func finishCase(rec *ev.Recorder, p plan, out *outcome) {
